@@ -24,7 +24,6 @@ static std::string seqStr(const std::vector<TaskV>& a) {
 	return s + "]";
 }
 static bool isBare(const Info& f, uint8_t s) { return s != NOID && s < 64 && ((f.bare >> s) & 1); }
-static bool defines(const Info& f, uint8_t s, uint8_t m) { if (s == NOID) return f.head != 0; return s < 64 && ((f.defMask[s] >> m) & 1); }
 static int injOf(const Info& f, uint8_t s) { return s == NOID ? f.headInj : (s < 64 ? f.inj[s] : 0); }
 
 // ---- report tracking shared by C08 / C09 -------------------------------------------------------------
